@@ -462,6 +462,49 @@ def adversary_search(ctx, exe, mexe, rng, stats, quick):
     return len(runs)
 
 
+def run_concurrent(ctx, exe, conf):
+    """one "P" run of the harness; returns None when every heap behaved, else a symptom string"""
+    r = ctx.run(exe, "P %(threads)d %(cap)d %(len)d %(seed)d %(reps)d\n" % conf, timeout=300)
+    viol = [l for l in r.out.splitlines() if l.startswith("V ")]
+    ended = any(l.startswith("PEND") for l in r.out.splitlines())
+    if viol:
+        return viol[0][2:]
+    if r.timed_out:
+        return "the heaps did not finish within 300 s (livelock in a corrupted structure)"
+    if r.rc != 0 or not ended:
+        return "the process died (rc=%s): %s" % (r.rc, (r.sanitizer or r.err[-300:] or "no end marker")[:300])
+    return None
+
+
+def concurrent_heaps(ctx, exe, rng, stats, quick):
+    """several heaps, each owned by ONE thread, running at the same time — the way
+    compute_shortest_distances_matrix (routines/isomap.hpp) uses the heap inside its parallel region.
+    The refinement theorem is about one heap's own state (fh_refines_map quantifies over the heap record
+    only); it carries over to this use exactly when the real heap keeps all of its state in its own
+    arrays.  Each thread checks every public output of its heap against its own reference map."""
+    confs = []
+    for cap, length in ([(8, 400), (64, 3000), (377, 6000)] if quick else
+                        [(2, 100), (8, 400), (21, 1500), (64, 3000), (144, 5000), (377, 6000), (1000, 20000)]):
+        for threads in ((4, 16) if quick else (2, 4, 8, 16)):
+            confs.append({"threads": threads, "cap": cap, "len": length, "seed": rng.randrange(1, 1 << 30),
+                          "reps": 6 if quick else 20})
+    hits = 0
+    for conf in confs:
+        sym = run_concurrent(ctx, exe, conf)
+        if sym is not None:
+            hits += 1
+            # is it the concurrency?  the same histories one heap after the other
+            alone = run_concurrent(ctx, exe, dict(conf, threads=1))
+            if hits == 1:
+                ctx.violation({"cap": conf["cap"], "ops": [], "concurrent": conf},
+                              "heaps owned by different threads disturb each other (%s); the same history on one "
+                              "thread alone: %s — the heap touches memory outside its own arrays"
+                              % (sym, alone or "clean"))
+    stats["concurrent_runs"] = len(confs)
+    stats["concurrent_hits"] = hits
+    return len(confs)
+
+
 def run(ctx):
     rng = ctx.rng
     coq = ctx.coq()
@@ -510,6 +553,7 @@ def run(ctx):
         n += evaluate(ctx, exe, mexe, cases[i:i + 2000], stats)
     n += dn_obligation(ctx, exe, mexe, rng, stats, quick)
     n += adversary_search(ctx, exe, mexe, rng, stats, quick)
+    n += concurrent_heaps(ctx, exe, rng, stats, quick)
     if not ctx.has_violation():
         n += model_guided_oob(ctx, exe, mexe, rng, 3000 if quick and not ctx.is_unshown() else 40000, stats)
     distinct = set()
@@ -551,6 +595,16 @@ def run(ctx):
 
 def replay(ctx, case):
     exe = ctx.cpp("harness/c16.cpp")
+    if case.get("concurrent"):
+        # schedule dependent: try the recorded configuration a few times
+        for attempt in range(5):
+            sym = run_concurrent(ctx, exe, case["concurrent"])
+            if sym is not None:
+                print("concurrent heaps (%s): %s" % (case["concurrent"], sym))
+                print("replay: property C16 FAILS on this history")
+                return 1
+        print("replay: property C16 holds on this history (5 runs of the recorded configuration)")
+        return 0
     mexe = ctx.extract()
     c = {"cap": case["cap"], "ops": [tuple(o) for o in case["ops"]], "dump": True}
     stats = {"max_rank": 0}
